@@ -296,8 +296,8 @@ def main():
 
         tb = traceback.format_exc()
         if os.path.join(nv.REPO, "nucs") in tb:
-            os.makedirs(os.path.join(VERIF, "replays"), exist_ok=True)
-            rp = os.path.join(VERIF, "replays", f"{prop}-{int(time.time())}.json")
+            os.makedirs(os.path.join(nv.OUT, "replays"), exist_ok=True)
+            rp = os.path.join(nv.OUT, "replays", f"{prop}-{int(time.time())}.json")
             with open(rp, "w") as f:
                 json.dump({"property": prop, "kind": "no-failing-input-found", "tree_hash": th, "seed": seed,
                            "no_longer_checks": [{"broken": "correspondence", "component": "the implementation raised " + type(e).__name__ +
@@ -318,16 +318,16 @@ def main():
     for k in known:
         print(f"KNOWN-FINDING: property={prop} {k}")
     rc = 0
-    os.makedirs(os.path.join(VERIF, "replays"), exist_ok=True)
+    os.makedirs(os.path.join(nv.OUT, "replays"), exist_ok=True)
     if violations:
-        rp = os.path.join(VERIF, "replays", f"{prop}-{int(time.time())}.json")
+        rp = os.path.join(nv.OUT, "replays", f"{prop}-{int(time.time())}.json")
         with open(rp, "w") as f:
             json.dump({"property": prop, "kind": "failing-input", "tree_hash": th, "seed": seed,
                        "violations": violations[:20], "proof_problems": ps["problems"], "correspondence_differences": corr_diffs[:20]}, f, indent=1, default=str)
         print(f"VIOLATION property={prop} replay={rp}")
         rc = 1
     elif corr_diffs or not ps["ok"]:
-        rp = os.path.join(VERIF, "replays", f"{prop}-{int(time.time())}.json")
+        rp = os.path.join(nv.OUT, "replays", f"{prop}-{int(time.time())}.json")
         what = []
         if not ps["ok"]:
             what.append({"broken": "proof", "theorems": ps["theorems"], "problems": ps["problems"]})
